@@ -43,12 +43,9 @@ fn all_together(model: &mut Model, report: &mut Report, code: &str, order: &[&st
     }
     let rules: Vec<Box<dyn Rule>> = order.iter().map(|r| exec::rule_from_json(&format!("'{}'", r)).unwrap()).collect();
     let mut block1 = block0.clone();
-    let mut truthy_table = "()".to_owned();
     let applied = std::panic::catch_unwind(std::panic::AssertUnwindSafe(|| -> Result<(), String> {
         for (name, rule) in order.iter().zip(rules.iter()) {
-            if *name == "remove_if_expression" {
-                truthy_table = luaucheck::truthy_table(&astsexp::block_to_sexp(&block1));
-            }
+            let _ = name;
             exec::apply_rules(&mut block1, std::slice::from_ref(rule), code)?;
         }
         Ok(())
@@ -96,7 +93,7 @@ fn all_together(model: &mut Model, report: &mut Report, code: &str, order: &[&st
         report.count("lua51_text_checked", 1);
     }
     if compare_model {
-        let answer = model.ask(&format!("c06.all {} {}", sexp0, truthy_table));
+        let answer = model.ask(&format!("c06.all {}", sexp0));
         if answer != sexp1 {
             report.violation(Violation {
                 kind: "correspondence".into(),
